@@ -31,7 +31,8 @@ def gen(ctx):
     n = ctx.n(260, 6000)
     for i in range(n):
         spec = M.random_spec(rng)
-        cases.append({"kind": "method", "spec": spec, "dm": M.in_domain_dm(rng, spec, max_m=ctx.n(10, 16), ties=rng.choice([0.0, 0.3, 0.7]), int_label_rate=0.15)})
+        dmc = M.in_domain_dm(rng, spec, max_m=ctx.n(10, 16), ties=rng.choice([0.0, 0.3, 0.7]), int_label_rate=0.15)
+        cases.append({"kind": "method", "spec": spec, "dm": dmc})
     # near-tied scores next to a much larger one: two rows differing by one ulp in one cell, a third row scaled up
     import math
     for i in range(ctx.n(60, 600)):
@@ -77,6 +78,17 @@ def gen(ctx):
         L = rng.randint(1, 6)
         cases.append({"kind": "mkkernel", "values": [rng.choice([True, False]) for _ in range(L)],
                       "as": rng.choice(["bool", "bool", "int", "float"])})
+    # a fixed share: alternatives that share a label (mkdm accepts repeated labels): the result names the input's alternatives as given
+    for _ in range(ctx.n(40, 400)):
+        spec = M.random_spec(rng, [n_ for n_ in ("WSM", "WPM", "TOPSIS", "RatioMOORA", "RefPointMOORA", "FMF", "MultiMOORA", "ELECTRE1", "ELECTRE2")])
+        dmc = M.in_domain_dm(rng, spec, min_m=3, max_m=8, ties=0.2)
+        lab = dmc["alternatives"]
+        i, j = rng.sample(range(len(lab)), 2)
+        lab[j] = lab[i]
+        if len(lab) > 4 and rng.random() < 0.4:
+            k = rng.choice([x for x in range(len(lab)) if x not in (i, j)])
+            lab[k] = lab[i]
+        cases.append({"kind": "method", "spec": spec, "dm": dmc})
     return cases
 
 
@@ -93,6 +105,20 @@ def _result_obs(res, with_score=None):
         sc = np.asarray(res.e_[with_score], dtype=float)
         o["score"] = sc.tolist()
         o["score_finite"] = bool(np.all(np.isfinite(sc)))
+    # what a caller may do with what it is handed: edit it in place.  The result object must still say what it said.
+    try:
+        s1 = res.to_series()
+        if len(s1) > 1:
+            s1.sort_values(ascending=False, inplace=True)
+            s1 -= 1
+            s1.index = [f"edited{i}" for i in range(len(s1))]
+        v1 = np.asarray(res.values)
+        if v1.flags.writeable and v1.size > 1:
+            v1[:] = v1[::-1].copy()
+    except Exception:
+        pass
+    o["after_edit"] = {"alts": [G.lab(a) for a in res.alternatives], "values": np.asarray(res.values).tolist(),
+                       "series_index": [G.lab(a) for a in res.to_series().index]}
     return o
 
 
@@ -210,6 +236,10 @@ def judge(case, obs, replies):
             prop(f"{name} refused an in-domain matrix with {obs['err']}: {obs.get('msg')}")
             return out
         alts = [G.lab(a) for a in case["dm"]["alternatives"]]  # labels keep their type: 2019 is not "2019"
+        ae = obs.get("after_edit")
+        if ae and (ae["alts"] != obs["alts"] or ae["series_index"] != obs["series_index"]):
+            prop(f"{name}: after the caller edited the Series handed out by to_series() in place, the result no longer names the "
+                 "input's alternatives in input order", obs["alts"], ae)
         if obs["alts"] != alts or obs["series_index"] != alts:
             prop(f"{name}: result does not name the input's alternatives in input order", alts, obs["alts"])
         if obs["len"] != len(alts) or obs["shape"] != [len(alts)] or obs["series_values"] != obs["values"]:
